@@ -22,14 +22,17 @@ PS_One == { Params(FALSE, FALSE, 0, 1, FALSE, 0, TRUE, FALSE, 0) }
 Rec(a, x, f) == [a |-> a, x |-> x, f |-> f, it |-> it', s |-> samples', g |-> gsum', F |-> abfF', ft |-> ft', q |-> quirk']
 
 \* vacuity witnesses (registers set when the antecedent of an implication-shaped invariant held)
-Wit == /\ ((\E b \in Bins : samples[b] >= 2) => TLCSet(1, TRUE))
-       /\ ((started /\ ~InGrid(bin)) => TLCSet(2, TRUE))
-       /\ ((abfF # 0) => TLCSet(3, TRUE))
-       /\ ((runs > 1) => TLCSet(4, TRUE))
-WitInit == TLCSet(1, FALSE) /\ TLCSet(2, FALSE) /\ TLCSet(3, FALSE) /\ TLCSet(4, FALSE)
-WitPost == TLCGet(1) /\ TLCGet(2) /\ TLCGet(3) /\ TLCGet(4)
 
-MCInit == Init /\ hist = <<>> /\ WitInit
+\* vacuity witnesses: the check searches a state satisfying each Witness<i> (a violation of NoWitness<i>)
+Witness1 == \E b \in Bins : samples[b] >= 2
+NoWitness1 == ~Witness1
+Witness2 == started /\ ~InGrid(bin)
+NoWitness2 == ~Witness2
+Witness3 == abfF # 0
+NoWitness3 == ~Witness3
+Witness4 == runs > 1
+NoWitness4 == ~Witness4
+MCInit == Init /\ hist = <<>>
 MCNext == /\ Len(hist) < EmitLen
           /\ UNCHANGED p
           /\ \/ \E x \in XS, f \in FS : First(x, f * D) /\ hist' = Append(hist, Rec("First", x, f))
